@@ -22,23 +22,26 @@ Double(m) == [i \in 1..Len(m) |-> [k \in 1..Len(m[i]) |-> IF m[i][k] = NINF THEN
 
 \* scores in units of 1/U, U = 2 G:  w/U >= s/U + c/ginv   <=>   (w - s) * ginv >= U c
 Uof(e) == 2 * e.G
+\* events carrying `sat`: saturating distribution, recorded numerators clamped at the same cap by the recorder
 PvIterOK(D, e, it, M) ==
-  LET lo == TailWhere(D, LAMBDA w : (w - e.s8) * it.ginv >= Uof(e) * (M + 1))
-      hi == TailWhere(D, LAMBDA w : (w - e.s8) * it.ginv >= -(Uof(e) * (M + 2)))
+  LET sat == "sat" \in DOMAIN e
+      TWp(P(_)) == IF sat THEN TailWhereSat(D, P, e.sat) ELSE TailWhere(D, P)
+      lo == TWp(LAMBDA w : (w - e.s8) * it.ginv >= Uof(e) * (M + 1))
+      hi == TWp(LAMBDA w : (w - e.s8) * it.ginv >= -(Uof(e) * (M + 2)))
       sl == IF it.exact = 1 THEN 0 ELSE 1
-  IN /\ 0 <= it.pmin /\ it.pmin <= it.pmax /\ it.pmax <= e.den + sl
+  IN /\ 0 <= it.pmin /\ it.pmin <= it.pmax /\ it.pmax <= (IF sat THEN e.sat ELSE e.den) + sl
      /\ lo - sl <= it.pmin
      /\ it.pmax <= hi + sl
 
 ApplyPv(s, e) ==
   LET M == Len(e.pssm)
-      D == ConvDist(Double(e.pssm), e.bn, e.K)
+      D == IF "sat" \in DOMAIN e THEN ConvDistSat(Double(e.pssm), e.bn, e.K, e.sat) ELSE ConvDist(Double(e.pssm), e.bn, e.K)
       bad == {q \in 1..Len(e.iters) : ~PvIterOK(D, e, e.iters[q], M)}
       progress == Len(e.iters) >= 1 /\ \A q \in 1..Len(e.iters) : e.iters[q].k = q
       \* fidelity of the I-layer model (advisory): some admissible row permutation makes Tfm!LookupPv reproduce the
       \* logged range of every coarse iteration exactly (only for exact numerators and the first granularity 1/10; 1/100 is covered by MC_Tfm)
       fid == \A q \in 1..Len(e.iters) :
-               (e.iters[q].ginv <= 10 /\ e.iters[q].exact = 1) =>
+               (e.iters[q].ginv <= 10 /\ e.iters[q].exact = 1 /\ "sat" \notin DOMAIN e) =>
                  \E pm \in Perms(e.pssm, e.K) :
                     LookupPv(e.pssm, pm, e.bn, e.bd, e.K, e.iters[q].ginv, e.G, e.s8, FALSE) = <<e.iters[q].pmin, e.iters[q].pmax>>
   IN [ok |-> progress /\ bad = {}, st |-> s,
